@@ -92,6 +92,8 @@ type PNGSpec struct {
 	Post      []PNGChunk // between iCCP and IDAT (PLTE goes here for paletted images)
 	IDAT      []byte
 	NoIEND    bool
+	// FixedICCCRC, when non-zero, is written as the iCCP chunk's CRC field instead of the real CRC
+	FixedICCCRC uint32
 }
 
 var PNGSig = []byte{0x89, 'P', 'N', 'G', 0x0D, 0x0A, 0x1A, 0x0A}
@@ -131,6 +133,10 @@ func (s PNGSpec) Build() ([]byte, Truth) {
 		data := append([]byte(s.ICC.Name), 0, 0)
 		data = append(data, stream...)
 		writePNGChunk(&b, &t, PNGChunk{Type: "iCCP", Data: data}, "iCCP")
+		if s.FixedICCCRC != 0 {
+			bb := b.Bytes()
+			copy(bb[len(bb)-4:], be32(s.FixedICCCRC))
+		}
 		t.ICC = s.ICC.Profile
 		t.ICCState = "ok"
 		if s.ICC.State != "" {
